@@ -11,8 +11,8 @@ import common
 import isotp_common as ic
 from common import Check
 
-RX_POOL = [0x7E0, 0x7E8, 0x123, 0x6F1]
-NOISE_POOL = [0x001, 0x7DF, 0x555]
+RX_POOL = [0x7E0, 0x7E8, 0x123, 0x6F1, 0x18DA10F1, 0x18DAF110]  # 11 bit and 29 bit (normal fixed addressing) identifiers
+NOISE_POOL = [0x001, 0x7DF, 0x555, 0x18DB33F1]
 
 
 def boundary_lengths(fsz):
